@@ -670,7 +670,7 @@ func main() {
 		os.MkdirAll(filepath.Join(ev.VerifDir, ".work"), 0o755)
 		raceLog := filepath.Join(ev.VerifDir, ".work", fmt.Sprintf("c34-race-%d", os.Getpid()))
 		renv := []string{"GORACE=log_path=" + raceLog + " halt_on_error=0", "VX_RACELOG=" + raceLog, "VERIF_TIER=" + c.Tier}
-		can := vx.RunWorkers(raceBin, append(renv, "C34_CANARY=1"), []string{`{"scenario":"canary"}`}, 1, 90*time.Second)
+		can := vx.RunWorkers(raceBin, append(renv, "C34_CANARY=1"), []string{`{"scenario":"canary"}`}, 1, 300*time.Second)
 		if len(can) != 1 || can[0].Broken != "" || len(can[0].Races) != 1 || can[0].Races[0] != "canary: racy=1 locked=0" {
 			c.Broken("race canary failed: %+v", can)
 		}
